@@ -65,6 +65,13 @@ def replay(ctx, cfg, events, ops, expected, mres, props):
             ctx.listedit.append((le, [forest.oid(c) for c in le[4].contents], {"events": events, "ops": ops[:k + 1], "step": k}))
         case = {"events": events, "ops": ops[:k + 1], "step": k}
         if isinstance(status, str):
+            if "C01" in props:
+                try:
+                    bad = walk_check(forest)
+                except Exception as e:
+                    bad = ["walking the tree raised %s" % type(e).__name__]
+                if bad:
+                    ctx.fail(case, "an editing call raised %s and left the forest inconsistently linked: %s" % (status[4:], bad[0]), bad[:5])
             ctx.disagree("editing call raised an unexpected exception", case, status, None)
             return
         mstate = None
